@@ -36,6 +36,8 @@ class SimSocket(object):
         self.segments = collections.deque()
         self.peer_closed = False
         self.connected_to = None
+        self.broken = False           # the connection was reset: every further read or write fails
+        self.nsends = 0
 
     def __bool__(self):
         return True
@@ -44,12 +46,14 @@ class SimSocket(object):
         return 7
 
     def readable(self):
-        return bool(self.segments) or self.peer_closed
+        return bool(self.segments) or self.peer_closed or self.broken
 
     def recv(self, n):
         if self.closed:
             raise OSError(9, 'Bad file descriptor')
         self.sim.point('recv')
+        if self.broken:
+            raise ConnectionResetError(104, 'Connection reset by peer')
         if not self.readable():
             self.sim.blocking_recv()
         if self.segments:
@@ -70,6 +74,14 @@ class SimSocket(object):
     def sendall(self, data):
         if self.closed:
             raise OSError(9, 'Bad file descriptor')
+        fault = self.sim.write_fault
+        if self.broken or (fault is not None and self.nsends >= fault):
+            # the peer is gone and the local stack finds out while writing (EPIPE / ECONNRESET)
+            self.broken = True
+            self.segments.clear()
+            self.sim.log.append(('send-failed', len(data)))
+            raise ConnectionResetError(104, 'Connection reset by peer')
+        self.nsends += 1
         self.sim.log.append(('send', bytes(data)))
 
     send = sendall
@@ -186,8 +198,9 @@ class Sim(object):
     START_TIME = 1000.0
 
     def __init__(self, role, actions, max_pdu=65536, budget=20000, store_in_file=frozenset(),
-                 get_file_cb=None, accepted_contexts=None):
+                 get_file_cb=None, accepted_contexts=None, write_fault=None):
         self.role = role
+        self.write_fault = write_fault    # index of the first write on the transport that fails (None: never)
         self.actions = list(actions)
         self.next = 0
         self.now = self.START_TIME
@@ -231,7 +244,7 @@ class Sim(object):
         return act['k'] in ('seg', 'close')
 
     def _deliver_net(self, act):
-        if self.sock.closed or (self.role == 'requestor' and self.sock.connected_to is None):
+        if self.sock.closed or self.sock.broken or (self.role == 'requestor' and self.sock.connected_to is None):
             # transport gone (or never opened): the peer's bytes cannot reach the provider
             self.log.append(('dropped', self.next - 1))
             self.dropped += 1
